@@ -585,22 +585,30 @@ Proof.
   - intros k'. unfold holds_slot_of, holds_slot; cbn. rewrite Ep. reflexivity.
 Qed.
 
-Lemma pres_body_end i : Pres (LBodyEnd i).
+Lemma pres_end_body i b : forall s s', InvN caps (clock s) s ->
+  with_task s i (fun t => end_body s i t b) = Next s' ->
+  InvN caps (S (clock s)) s' /\ clock s' = clock s.
 Proof.
-  start I H. get_task H t Et.
+  intros s s' I H. unfold with_task, end_body in H. get_task H t Et.
   destruct (pc t) eqn:Ep; try discriminate. inversion H; subst; clear H. split; [|reflexivity].
   pose proof (Forall_nth _ _ _ _ (i_tasks _ _ _ I) Et) as Hok.
-  unfold task_ok in Hok; rewrite Ep in Hok. destruct Hok as (Hr & a & b & Hs & L1 & L2).
+  unfold task_ok in Hok; rewrite Ep in Hok. destruct Hok as (Hr & a & b0 & Hs & L1 & L2).
   apply stamps_inv in Hs. destruct Hs as (S1 & S2 & S3 & S4).
   apply (InvN_mono caps (clock s) (S (clock s))) in I; [|lia].
   eapply inv_put_task with (t := t); eauto.
   - unfold task_ok; cbn. destruct (is_limited (tk t)) eqn:El; cbn; unfold stamps, ret_running; cbn; rewrite S1, S2.
-    + split; [reflexivity|]. split; [exact Hr|]. exists a, b, (clock s). repeat split; try assumption; lia.
-    + split; [exact Hr|]. exists a, b, (clock s). repeat split; try assumption; lia.
+    + split; [reflexivity|]. split; [exact Hr|]. exists a, b0, (clock s). repeat split; try assumption; lia.
+    + split; [exact Hr|]. exists a, b0, (clock s). repeat split; try assumption; lia.
   - cbn. unfold in_flight. rewrite Ep. destruct (is_limited (tk t)); reflexivity.
   - intros k'. unfold holds_slot_of, holds_slot; cbn. rewrite Ep.
     destruct (is_limited (tk t)); reflexivity.
 Qed.
+
+Lemma pres_body_end i : Pres (LBodyEnd i).
+Proof. intros s s' I H. exact (pres_end_body i false s s' I H). Qed.
+
+Lemma pres_body_panic i : Pres (LBodyPanic i).
+Proof. intros s s' I H. exact (pres_end_body i true s s' I H). Qed.
 
 Lemma hso_same_pcs k t t' :
   tk t' = tk t -> holds_slot t' = holds_slot t -> holds_slot_of k t' = holds_slot_of k t.
@@ -636,7 +644,8 @@ Proof.
       destruct (i_drained _ _ _ I d Ed) as (Q & _). congruence. }
     apply (InvN_mono caps (clock s) (S (clock s))) in I; [|lia]. destruct I.
     set (t' := {| tk := tk t; pc := TAccepted; t_ret := if is_sync (tk t) then None else Some RNil;
-                  t_acc_at := Some (clock s); t_begin_at := None; t_end_at := None; t_post_at := None |}).
+                  t_acc_at := Some (clock s); t_begin_at := None; t_end_at := None; t_post_at := None;
+                  t_panicked := false |}).
     assert (Hf : in_flight t = false) by (unfold in_flight; rewrite Ep; reflexivity).
     assert (Hf' : in_flight t' = true) by reflexivity.
     constructor; simp_st; try assumption.
@@ -674,7 +683,8 @@ Proof.
     destruct (i_drained _ _ _ I d Ed) as (_ & N & _). rewrite (i_num _ _ _ I) in N. lia. }
   apply (InvN_mono caps (clock s) (S (clock s))) in I; [|lia]. destruct I.
   set (t' := {| tk := tk t; pc := TDone; t_ret := Some RNil; t_acc_at := t_acc_at t;
-                t_begin_at := t_begin_at t; t_end_at := t_end_at t; t_post_at := Some (clock s) |}).
+                t_begin_at := t_begin_at t; t_end_at := t_end_at t; t_post_at := Some (clock s);
+                t_panicked := t_panicked t |}).
   assert (Hf' : in_flight t' = false) by reflexivity.
   constructor; simp_st; try assumption.
   - apply Forall_upd; [assumption|]. unfold task_ok; cbn. split; [reflexivity|].
@@ -1250,6 +1260,7 @@ Proof.
   - apply pres_sem_rel_refused.
   - apply pres_body_begin.
   - apply pres_body_end.
+  - apply pres_body_panic.
   - apply pres_sem_release.
   - apply pres_postlude.
   - apply pres_worker_start.
@@ -1343,7 +1354,7 @@ Proof.
     - rewrite nth_upd_other by exact Ne. exact Et. }
   assert (Happ : forall x (s2 : st), tasks s2 = tasks s ++ [x] -> nth_error (tasks s2) i = Some t).
   { intros x s2 ->. rewrite nth_error_app1; [exact Et|]. apply nth_error_Some. congruence. }
-  destruct l; cbn [step0] in E; unfold with_task, with_thread in E;
+  destruct l; cbn [step0] in E; unfold with_task, with_thread, end_body in E;
     repeat match type of E with
            | context [match ?x with _ => _ end] => destruct x eqn:?; try discriminate
            end;
@@ -1507,7 +1518,7 @@ Theorem no_panic caps s l : reachable caps s -> step s l <> Panics.
 Proof.
   intros R. pose proof (reachable_inv caps s R) as I. unfold step.
   destruct (step0 s l) as [s1| |] eqn:E; try discriminate. exfalso.
-  destruct l; cbn [step0] in E; unfold with_task, with_thread in E;
+  destruct l; cbn [step0] in E; unfold with_task, with_thread, end_body in E;
     repeat match type of E with
            | context [match ?x with _ => _ end] => destruct x eqn:?; try discriminate
            end; try discriminate;
